@@ -290,6 +290,13 @@ class PolarsCoercible(Contract):
             import polars as pl
             from pandera.engines import polars_engine as pe
 
+            from pandera.api.polars.types import PolarsData
+
+            mask = pe.polars_object_coercible(PolarsData(pl.LazyFrame({"a": ["1", None, "x"]}), "a"), pl.Int64).collect()["check_output"].to_list()
+            if mask != [True, True, False]:
+                # (the row mask is ParserError.parser_output -> SchemaError.check_output: drop_invalid_rows AND-folds it, a null entry
+                # drops the row)
+                return True, {"input": ["1", None, "x"], "polars_object_coercible(..., Int64)": mask, "expected": [True, True, False]}
             try:
                 pe.Int64().try_coerce(pl.LazyFrame({"a": ["1", None, "x"]}))
                 return False, "no error"
